@@ -380,4 +380,44 @@ ADJACENCY = [
     "(func x -> x + 1)", "f (func x -> x)", "(func x -> x) a", "func x -> (func y -> x + y)", "func x -> f x y", "func x -> (x | f)", "case [a => -b, (f a) => g b, (a == b) => (c ?? d)]",
     "{a = -b, c = (f x), (d = e)}", "[a + b, -c, f d]", "(a)", "((a))", "(a + b)", "{(a + b)}", "f ((a))", "1 + 2 * 3", "(1 + 2) * 3", "a.b + c.d", "-1", "-1..2", "-(1..2)", "..-1",
     "f -a", "f - a", "f (a) -b", "a -b", "a - b", "a-b", "a ==b", "f ==b", "f (==b)", "f !b", "f (!b)", "f +b", "f (+b)",
+    # a binary expression whose left-most operand starts with a sign, as an (unaliased) function argument
+    "f ((-a) + b)", "f ((-a) + b) c", "f c ((-a) * b)", "f ((+a) - b)", "f ((==a) && b)", "f x:((-a) + b) c", "f ((-a) + b > 0)", "f (((-a) + b) * c)",
+    "f ((-a)..b)", "f ((-a) ?? b) (+c)", "f (!a && b)", "f ((-a) + b | g)", "f {(-a) + b}", "f [(-a) + b]", "f (x = (-a) + b)", "(f ((-a) + b)) + c", "-a + b", "(-a) + b",
 ]
+
+
+# ------------------------------------------------------------------------------------------- identifier alphabet
+
+def unicode_names():
+    """Names that probe where identifier classes of the printers can differ from the lexer's (char::is_alphabetic /
+    is_alphanumeric / `_`): for every Unicode general category a few well-established non-ASCII code points (plus some
+    ASCII ones), placed after a letter, between letters and in front.  Control characters and the backtick are left out
+    (a backticked name cannot contain a backtick)."""
+    import unicodedata
+    picks = {}
+    wanted = ["Lu", "Ll", "Lt", "Lm", "Lo", "Mn", "Mc", "Me", "Nd", "Nl", "No", "Pc", "Pd", "Ps", "Pe", "Pi", "Pf", "Po", "Sm", "Sc", "Sk", "So", "Zs", "Cf"]
+    for cp in list(range(0x80, 0x3000)) + list(range(0xFF00, 0xFFEF)) + list(range(0x1D400, 0x1D440)):
+        cat = unicodedata.category(chr(cp))
+        if cat in wanted and len(picks.setdefault(cat, [])) < 3:
+            picks[cat].append(chr(cp))
+    special = ["\u0301", "\u094d", "\u203f", "\u200d", "\u200c", "\u0661", "\u2167", "\u00b2", "\uff3f", "\u00aa", "\u02b0", "\u0e31", "\u064b", "\u3005", "\u00b7", "\u2118", "\u1885", "\u309b",
+               "$", "-", ".", " ", "'", "\"", "#", "@", "0", "_"]
+    chars = []
+    for cat in wanted:
+        chars += picks.get(cat, [])
+    chars += special
+    names = []
+    for ch in dict.fromkeys(chars):
+        names += ["a" + ch, "a" + ch + "b", ch + "a"]
+    names += ["cafe\u0301", "\u0939\u093f\u0928\u094d\u0926\u0940", "nai\u0308ve\u203fx", "t\u00e8te", "gr\u00f6\u00dfe2", "\u65e5\u672c\u8a9e", "\u0661\u0662", "\u2167"]
+    return list(dict.fromkeys(names))
+
+
+def unicode_name_sources():
+    out = []
+    for n in unicode_names():
+        q = "`" + n + "`"
+        out.append("from t\nselect {%s = %s, x = t.%s}\n" % (q, q, q))
+        out.append("let %s = func %s k:1 -> %s\nfrom t\nderive {y = f k:2 %s}\n" % (q, q, q, q))
+        out.append("module %s {\n  type %s = int\n}\nfrom t\nwindow %s:1 (derive {z = 1})\n" % (q, q, q))
+    return out
